@@ -51,13 +51,13 @@ def msg(t, p, ch, sym, entries=None, port=None):
     return o
 
 
-def base_plan(ops, cls, seed=0, until=None):
+def base_plan(ops, cls, seed=0, until=None, start_at=0.0):
     cfg = {
         "wrap": ["reboot"],
         "filters": [WATCHED],
         "timings": {"INITIAL_DELAY_MIN": 0.0, "INITIAL_DELAY_MAX": 0.0, "REPETITIONS_MAX": 0, "SUBSCRIBE_REFRESH_INTERVAL": None},
     }
-    ops = [{"k": "call", "t": 0.0, "f": "start"}, {"k": "call", "t": 0.0, "f": "watch", "a": [0, "L0"]}] + ops
+    ops = sorted([{"k": "call", "t": start_at, "f": "start"}, {"k": "call", "t": 0.0, "f": "watch", "a": [0, "L0"]}] + ops, key=lambda o: o["t"])
     return {"engine": "single", "property": ID, "class": cls, "seed": seed, "cfg": cfg, "ops": ops, "until": until or (max(o["t"] for o in ops) + 1.0)}
 
 
@@ -68,6 +68,13 @@ def sweep_plan(i):
     if i < N2:
         a, b = SYMS[i // 12], SYMS[i % 12]
         ch = "m" if (i // 7) % 2 else "u"
+        variant = (i // 12 + i) % 3
+        if variant == 1:
+            # the node is stopped and started again between the two messages: what it knows about its peers stays
+            return base_plan([msg(0.1, 0, ch, a), {"k": "call", "t": 0.12, "f": "stop"}, {"k": "call", "t": 0.15, "f": "start"}, msg(0.2, 0, ch, b)], "pair")
+        if variant == 2:
+            # the first message arrives before the node is started for the first time
+            return base_plan([msg(0.1, 0, ch, a), msg(0.2, 0, ch, b)], "pair", start_at=0.15)
         return base_plan([msg(0.1, 0, ch, a), msg(0.2, 0, ch, b)], "pair")
     i -= N2
     if i < N3:
@@ -129,12 +136,25 @@ def random_plan(seed, idx):
             payload = b"\xc0\x00\x00\x00" + (1000).to_bytes(4, "big") + bytes(16)
             data = refdec.enc_someip(0xFFFF, 0x8100, 0, r.choice([1, 2, 0xFFFF]), 1, 2, 0, payload)
             ops.append({"k": "raw", "t": t, "p": p, "ch": ch, "hex": data.hex()})
-        else:
+        elif u < 0.975:
             # two SD messages coalesced in one datagram
             s1, s2 = (r.random() < 0.5, r.randint(1, 0xFFFF)), (r.random() < 0.5, r.randint(1, 0xFFFF))
             data = refdec.enc_sd_message([], s1[1], reboot=s1[0]) + refdec.enc_sd_message([], s2[1], reboot=s2[0])
             ops.append({"k": "raw", "t": t, "p": p, "ch": ch, "hex": data.hex()})
-    pl = base_plan(ops, "random", seed)
+        elif u < 0.99:
+            # an undecodable SD message (or a foreign message) in front of / between good ones in one datagram: what follows still counts
+            bad = refdec.enc_someip(0xFFFF, 0x8100, 0, r.choice([1, 2, 0xFFFF]), 1, 2, 0, b"\xc0\x00\x00\x00" + (1000).to_bytes(4, "big") + bytes(16))
+            foreign = refdec.enc_someip(0x1234, 1, 0, 7, 1, 2, 0, b"\x01\x02")
+            s1, s2 = (r.random() < 0.6, r.choice(SIDS + [r.randint(1, 0xFFFF)])), (r.random() < 0.6, r.choice(SIDS + [r.randint(1, 0xFFFF)]))
+            g1, g2 = refdec.enc_sd_message([], s1[1], reboot=s1[0]), refdec.enc_sd_message([], s2[1], reboot=s2[0])
+            data = r.choice([bad + g1, g1 + bad + g2, foreign + g1, bad + bad + g1, g1 + foreign + g2])
+            ops.append({"k": "raw", "t": t, "p": p, "ch": ch, "hex": data.hex()})
+        else:
+            # the node is stopped and started again: the peers' session records survive
+            ops.append({"k": "call", "t": t, "f": "stop"})
+            t = round(t + r.choice([0.0, 0.001, 0.3]), 6)
+            ops.append({"k": "call", "t": t, "f": "start"})
+    pl = base_plan(ops, "random", seed, start_at=r.choice([0.0, 0.0, 0.0, 0.15, 0.6]))
     pl["cfg"]["sock_flip"] = r.choice([0, 0.5, 1.0])
     return pl
 
